@@ -108,7 +108,7 @@ func genC11(rt *rapid.T) C11Case {
 			c.Clients = append(c.Clients, rapid.SliceOfN(opGen, 1, tierN(6, 10)).Draw(rt, "client"))
 		}
 	}
-	c.Schedule = rapid.SliceOfN(rapid.Uint16Range(0, 3), 0, tierN(200, 500)).Draw(rt, "schedule")
+	c.Schedule = genSchedule(rt, tierN(300, 700))
 	return c
 }
 
